@@ -177,7 +177,8 @@ def main():
             shutil.rmtree(tmp)
     HAND_MADE = [("M02-revert-D1", "C01 C11 C12 C15", "the pinned tree's defect D1 (MultiScalarMult receiver), i.e. the fix reverted"),
                  ("M10-projlookup-direct-index", "C03", "secret-indexed table load"),
-                 ("M44-once-to-bool", "C18", "sync.Once replaced by a plain bool")]
+                 ("M44-once-to-bool", "C18", "sync.Once replaced by a plain bool"),
+                 ("M49-setbytes-unsafe-overread", "C14", "Element.SetBytes loads a 64-bit word at x[31] through unsafe: reads 7 bytes past the input; only a guard page sees it")]
     index += [h for h in HAND_MADE if os.path.exists(os.path.join(OUT, h[0] + ".diff"))]
     with open(os.path.join(OUT, "INDEX.tsv"), "w") as fo:
         for mid, props, note in index:
